@@ -5,7 +5,7 @@
                    Pipe.eval = the specification (plain recursion along the producer relation, no memo/log)
                    needed_top p kw o = the functions o depends on, not cut off by supplied / bound names. *)
 From Coq Require Import Permutation.
-From Verif Require Import Base.Prelude Base.StrOrd Base.Graph Model.Pipe Proofs.GraphFacts Proofs.PipeFacts.
+From Verif Require Import Base.Prelude Base.StrOrd Base.Graph Model.Pipe Proofs.GraphFacts Proofs.PipeFacts Proofs.ArgCombFacts.
 
 (* Complete characterisation: error of the evaluation, else rejection of a surplus keyword, else the value. *)
 Theorem C02_run_characterised : forall body pick p o kw,
@@ -99,6 +99,41 @@ Theorem C02_spec_roots_accepted : forall p o kw,
 Proof. exact spec_roots_accepted. Qed.
 Print Assumptions C02_spec_roots_accepted.
 
+(* every element of arg_combinations(o) (model of _compute_arg_mapping, repaired code) is accepted: with exactly
+   those keywords nothing is unused, nothing is missing, and run returns the value of the specification *)
+Theorem C02_arg_combinations_accepted : forall body pick p o cs c kw,
+  wf_pipeline p -> is_output p o = true -> arg_combinations p o = Ok cs -> In c cs ->
+  (forall k, In k (akeys kw) <-> In k c) ->
+  aget kw o = None /\ no_unused p kw o /\ sufficient p kw o
+  /\ fst (run body pick p o kw false) = lift_value (eval_top body pick p kw o).
+Proof. exact arg_combinations_accepted. Qed.
+Print Assumptions C02_arg_combinations_accepted.
+
+Theorem C02_root_args_accepted : forall body pick p o c kw,
+  wf_pipeline p -> is_output p o = true -> root_args p o = Ok c ->
+  (forall k, In k (akeys kw) <-> In k c) ->
+  (forall k, In k c -> is_output p k = false)
+  /\ aget kw o = None /\ no_unused p kw o /\ sufficient p kw o
+  /\ fst (run body pick p o kw false) = lift_value (eval_top body pick p kw o).
+Proof. exact root_args_accepted. Qed.
+Print Assumptions C02_root_args_accepted.
+
+(* "yields this value": supplying an intermediate with the value the pipeline computes for it changes no value,
+   and keywords that the evaluation does not read are irrelevant *)
+Theorem C02_supplied_computed_consistent : forall body pick p kw a va x,
+  wf_pipeline p -> aget kw a = None -> eval_top body pick p kw a = Ok va ->
+  eval_top body pick p ((a, va) :: kw) x = eval_top body pick p kw x.
+Proof. exact supplied_computed_consistent. Qed.
+Print Assumptions C02_supplied_computed_consistent.
+
+Theorem C02_unread_keywords_irrelevant : forall body pick p kw1 kw2 x,
+  wf_pipeline p ->
+  (forall f cur, In f (needed_top p kw1 x) -> In cur (pnames f) -> aget (bound f) cur = None ->
+                 aget kw1 cur = aget kw2 cur) ->
+  eval_top body pick p kw2 x = eval_top body pick p kw1 x.
+Proof. exact unread_keywords_irrelevant. Qed.
+Print Assumptions C02_unread_keywords_irrelevant.
+
 (* ---------- non-vacuity: a diamond with a tuple-output function, a default, a bound value, a rename ---------- *)
 Definition ex_p : pipeline :=
   [ mkf (s "f") [s "a"; s "b"] [(s "x", s "x")] [] [] false;
@@ -118,3 +153,16 @@ Example ex_value :
 Proof. vm_compute. reflexivity. Qed.
 Example ex_roots : spec_roots ex_p (s "d") = [s "x"; s "y"] /\ root_args ex_p (s "d") = Ok [s "x"; s "y"].
 Proof. vm_compute. auto. Qed.
+
+(* the two repaired defects, replayed on the model of the repaired code *)
+Example ex_fixed_full_output :   (* (a,b)=f(x); c=g(a,b); run("c", {x:1, a:"S"}, full_output=True) keeps the supplied a *)
+  let p := [ mkf (s "f") [s "a"; s "b"] [(s "x", s "x")] [] [] false;
+             mkf (s "g") [s "c"] [(s "a", s "a"); (s "b", s "b")] [] [] false ] in
+  fst (run Sym.body Sym.pick p (s "c") [(s "x", s "1"); (s "a", s "S")] true) =
+  Ok (Full [(s "x", s "1"); (s "a", s "S"); (s "b", s "out(b;f(x=1))"); (s "c", s "g(a=S,b=out(b;f(x=1)))")]).
+Proof. vm_compute. reflexivity. Qed.
+Example ex_fixed_arg_combinations :   (* (a,b)=f(x); d=h(a): the combination is ('a',), not ('a','b') *)
+  let p := [ mkf (s "f") [s "a"; s "b"] [(s "x", s "x")] [] [] false;
+             mkf (s "h") [s "d"] [(s "a", s "a")] [] [] false ] in
+  arg_combinations p (s "d") = Ok [[s "a"]; [s "x"]].
+Proof. vm_compute. reflexivity. Qed.
